@@ -44,7 +44,7 @@ class C19(Check):
         "cases: per-attempt outcome words over {response ok, response with listed / unlisted error code, listed / unlisted transport exception, "
         "body that is not JSON, body that is not a response (object / scalar), identity mismatch, BaseException (harness BaseException subclass; "
         "asyncio.CancelledError on the async side)} - all words of length n+1 for retry strategies of n = 0..2 attempts (enumerated, both tiers; "
-        "n = 3 in thorough) x 0..3 tracers x single / batch / notification x entry point {send with a hand-built request, call, __call__, proxy attribute, notify, batch.send, batch.add().call(), batch.proxy...(), batch.proxy....call()} x caller-supplied vs default trace context x sync / async (rotating); "
+        "n = 3 in thorough) x 0..3 tracers x single / batch / notification x entry point {send with a hand-built request, call, __call__, proxy attribute, notify, batch.send, batch.add().call(), batch.proxy...(), batch.proxy....call()} x caller-supplied vs default trace context x request made normally / from inside an except block of the caller x sync / async (rotating); "
         "plus Hypothesis-drawn configurations. Oracle: the event log is, per attempt, begin by every tracer in configuration order, then "
         "exactly one completion by every tracer in order - end with the returned response object (None for notifications) or error with "
         "the raised exception (identity) - begin and completion of one attempt carry the same context object (the caller's when supplied, "
@@ -59,7 +59,7 @@ class C19(Check):
     required_classes = ['tracers/0', 'tracers/1', 'tracers/2', 'tracers/3', 'ctx/caller', 'ctx/default', 'kind/single', 'kind/batch',
                         'kind/notification', 'client/sync', 'client/async', 'attempts>=2', 'outcome/base-exc', 'outcome/identity',
                         'outcome/not-json', 'outcome/not-response', 'entry/send', 'entry/call', 'entry/proxy', 'entry/notify',
-                        'entry/batch.call', 'entry/batch.proxy()', 'entry/batch.proxy.call']
+                        'entry/batch.call', 'entry/batch.proxy()', 'entry/batch.proxy.call', 'caller/inside-except-block']
 
     def _words(self, maxn: int, shard: int = 0, nshards: int = 1):
         i = 0
@@ -72,7 +72,7 @@ class C19(Check):
                     rk = ['single', 'batch', 'notification'][i % 3]
                     yield {'client': client, 'request': rk, 'tracers': (i // 3) % 4,
                            'ctx': ['caller', 'default'][(i // 12) % 2], 'strategy': strategy_for(n) if n or i % 5 else None,
-                           'outcomes': list(word), 'entry': ENTRIES[rk][(i // 7) % len(ENTRIES[rk])]}
+                           'outcomes': list(word), 'entry': ENTRIES[rk][(i // 7) % len(ENTRIES[rk])], 'in_handler': i % 5 == 0}
 
     def enumerate(self, tier: str):
         return self._words(2) if tier == 'quick' else None
@@ -90,7 +90,7 @@ class C19(Check):
     def strategy(self, tier: str):
         return st.builds(
             lambda c, r, t, x, n, o, e: {'client': c, 'request': r, 'tracers': t, 'ctx': x, 'strategy': strategy_for(n) if n is not None else None, 'outcomes': o,
-                                         'entry': ENTRIES[r][e % len(ENTRIES[r])]},
+                                         'entry': ENTRIES[r][e % len(ENTRIES[r])], 'in_handler': e >= 8},
             st.sampled_from(['sync', 'async']), st.sampled_from(['single', 'batch', 'notification']), st.integers(0, 3),
             st.sampled_from(['caller', 'default']), st.sampled_from([None, 0, 1, 2, 3]), st.lists(st.sampled_from(NAMES), min_size=4, max_size=4),
             st.integers(0, 11),
@@ -175,6 +175,23 @@ class C19(Check):
             else:
                 fn = lambda: client.proxy.m(1, _trace_ctx=caller_ctx)  # noqa: E731
         unwraps = entry not in ('send',)      # these notations hand the caller the result (or raise the error), not the response object
+        if spec.get('in_handler'):
+            # the request is made while the CALLER is handling an unrelated exception (a fallback call inside an except block)
+            plain_fn = fn
+            if kind == 'async':
+                async def _afn():
+                    try:
+                        raise LookupError('unrelated exception the caller is handling')
+                    except LookupError:
+                        return await plain_fn()
+                fn = _afn  # noqa: E731
+            else:
+                def _sfn():
+                    try:
+                        raise LookupError('unrelated exception the caller is handling')
+                    except LookupError:
+                        return plain_fn()
+                fn = _sfn  # noqa: E731
 
         with ch.captured_sleeps():
             try:
@@ -260,7 +277,7 @@ class C19(Check):
             if second:
                 if any(getattr(e[3], 'mark_left_by_first_request', False) for e in second) or ({e[2] for e in second} & first_ctx_ids):
                     discs.append(Disc("C19/default-context-shared-between-requests", f"the second request's tracer events carry a context of the first request | {where}"))
-        classes = [f"tracers/{T}", f"ctx/{spec['ctx']}", f"kind/{rkind}", f"client/{kind}", f"entry/{entry}"]
+        classes = [f"tracers/{T}", f"ctx/{spec['ctx']}", f"kind/{rkind}", f"client/{kind}", f"entry/{entry}"] + (['caller/inside-except-block'] if spec.get('in_handler') else [])
         if n_sent >= 2:
             classes.append('attempts>=2')
         used = names[:max(n_sent, 1)]
